@@ -85,6 +85,13 @@ def _apply_real(out, sections, op):
         sections[op[1]].clear(op[2])
     elif kind == "ind":
         sections[op[1]].indent(op[2])  # sets the indentation of that section from now on
+    elif kind == "bad":
+        # a message the formatter rejects, written to the NEWEST section (nothing below it has to be erased first): the
+        # write fails with ValueError and leaves section and screen as they were
+        try:
+            sections[-1].write_line("<fg=nosuchcolour>rejected by the formatter")
+        except ValueError:
+            pass
     else:
         raise ValueError(op)
 
@@ -104,6 +111,8 @@ def _apply_ghost(ghost, op, inds=None):
             inds.append(0)
     elif kind == "ind":
         inds[op[1]] = op[2]
+    elif kind == "bad":
+        pass
     elif kind == "w":
         ghost[op[1]].extend(lines(op[1], op[2]))
     elif kind == "o":
@@ -140,10 +149,13 @@ def _run(ops, width, initial_sections, check_from):
     """Run ops on `initial_sections` fresh sections of one ANSI output; the screen is compared with the ghost model
     after every operation from index `check_from` on.  Returns dict(ok, step, what, cls, state)."""
     old = os.environ.get("COLUMNS")
-    os.environ["COLUMNS"] = str(width)
+    # the output and its first sections are created while the terminal reports another width (nothing is on the screen
+    # yet); the width that counts is the one the terminal has when a line is measured
+    os.environ["COLUMNS"] = str(width + 13)
     try:
         out, stream = _new_output(True)
         sections = [out.section() for _ in range(initial_sections)]
+        os.environ["COLUMNS"] = str(width)
         ghost = [[] for _ in range(initial_sections)]
         inds = [0] * initial_sections
         indented = any(o[0] == "ind" for o in ops)
@@ -179,7 +191,12 @@ def _run(ops, width, initial_sections, check_from):
                 return res
             for k, s in enumerate(sections):
                 want = "".join(l + "\n" for l in ghost[k])
-                have = s.remove_format(s.content)
+                try:
+                    have = s.remove_format(s.content)
+                except ValueError as e:
+                    res.update(ok=False, step=i, cls=tag + "|content-is-not-valid-markup",
+                               what="after %r section %d holds content its own formatter rejects (%r): %r" % (op, k, e, s.content))
+                    return res
                 if indented:
                     # (an empty line of an indented section is stored as blanks: invisible, not part of the property)
                     have = "".join(l.rstrip(" ") + "\n" for l in have.split("\n")[:-1]) if have else have
@@ -256,6 +273,8 @@ def _short(ops):
             out.append("c%d" % o[1])
         elif o[0] == "ind":
             out.append("ind%d=%d" % (o[1], o[2]))
+        elif o[0] == "bad":
+            out.append("bad")
         else:
             out.append("c%d(%d)" % (o[1], o[2]))
     return " ".join(out)[:160]
@@ -343,7 +362,8 @@ def _random_ops(rng, width, length, partial, max_sections):
             wide = wide or any(n > width for n in spec)
             ops.append((rng.choice(["w", "w", "o"]), s, text))
         elif r < 0.75:
-            ops.append(("c", s) if rng.random() < 0.8 else ("cn", s, 0))
+            x = rng.random()
+            ops.append(("c", s) if x < 0.75 else (("cn", s, 0) if x < 0.92 else ("bad",)))
         elif partial:
             ops.append(("cn", s, rng.choice([1, 1, 2, 3, 4])))
         else:
